@@ -1,6 +1,8 @@
 import BHS.Props.C05
 import BHS.Props.SqlShape.Add
 import BHS.Props.ChainSvc
+import BHS.Props.RepoWritesGen
+import BHS.Props.RepoWritesC05
 open BHS.Props.C05
 #print axioms C05_restart_id
 #print axioms C05_restart_fresh
@@ -18,3 +20,8 @@ open BHS.Props.C05
 #print axioms BHS.Props.ChainSvc.Gen_add_fault_refines
 #print axioms BHS.Props.ChainSvc.C05_struct_valid_generated
 #print axioms BHS.Props.ChainSvc.C05_redeliver_generated
+#print axioms BHS.Props.RepoWritesGen.UpdateState_atomic
+#print axioms BHS.Props.RepoWritesGen.AddHeaderToDatabase_atomic
+#print axioms BHS.Props.RepoWritesGen.RepoM_writes_simulated
+#print axioms BHS.Props.RepoWritesGen.Gen_write_sequence
+#print axioms BHS.Props.RepoWritesGen.C05_struct_valid_at_tx_boundaries
